@@ -287,7 +287,12 @@ class FormulaTransformer(m.MatcherDecoratableTransformer):
             # Do nothing if node is the keyword of an argument, as in foo(x=x)
             return updated_node
         elif self.should_replace(original_node):
-            return cst.Attribute(value=cst.Name('self'), attr=updated_node)
+            # Parentheses around the name go around the attribute: (x) -> (self.x)
+            return cst.Attribute(
+                value=cst.Name('self'),
+                attr=updated_node.with_changes(lpar=(), rpar=()),
+                lpar=updated_node.lpar,
+                rpar=updated_node.rpar)
         else:
             return updated_node
 
